@@ -75,7 +75,10 @@ class Check:
         if clear_replays and os.path.isdir(d):   # replay files of earlier runs are stale
             for fn in os.listdir(d):
                 if fn.endswith(".json"):
-                    os.unlink(os.path.join(d, fn))
+                    try:
+                        os.unlink(os.path.join(d, fn))
+                    except FileNotFoundError:      # another run of the same check is clearing the directory at the same moment
+                        pass
         self._seen_viol = set()
 
     # ---- reporting -------------------------------------------------------------------------
